@@ -94,6 +94,10 @@ def gen_case(rng):
     elif r < 0.14:
         col = [ud(rng, lo, hi, 4) for _ in t["io"]]
         t[z] = [list(col) for _ in t["vi"]]                                             # depends on io only: all rows equal
+    if z == "vdrop" and rng.random() < 0.25:
+        # drops written with a sign (the rail's, or a datasheet convention): table data are taken in magnitude, all of them or some
+        allneg = rng.random() < 0.6
+        t[z] = [[(-x if (allneg or rng.random() < 0.4) else x) for x in row] for row in t[z]]
     if z == "eff" and rng.random() < 0.12:
         # entries exactly at the end of the documented range (0 < eff <= 1): an ideal stage at some operating points, or everywhere
         if rng.random() < 0.3:
